@@ -601,6 +601,8 @@ class ResourceManager(object):
             with ru.ru_open(fname, 'r') as fin:
                 for line in fin.readlines():
                     node = line.strip()
+                    if not node:
+                        continue  # skip blank lines
                     assert ' ' not in node
                     if node in nodes: nodes[node] += 1
                     else            : nodes[node]  = 1
